@@ -172,20 +172,24 @@ static void run_case_t(seqx::Runner &R, bool with_arg, const std::vector<int> &s
     {
         Ctx c;
         bool any_inf = false, any_throw = false;
-        std::vector<G> list;
-        for (size_t i = 0; i < src.size(); i++) {
-            if (src[i] == ASYNC2) {
-                c.gate_p[i] = c.gate[i].get_promise();
-                c.gate_used[i] = true;
+        // the aggregate is built by a factory whose source vector is a local that is gone before the first value is asked for
+        auto make_aggregate = [&]() -> G {
+            std::vector<G> list;
+            for (size_t i = 0; i < src.size(); i++) {
+                if (src[i] == ASYNC2) {
+                    c.gate_p[i] = c.gate[i].get_promise();
+                    c.gate_used[i] = true;
+                }
+                any_inf |= src[i] == INF;
+                any_throw |= src[i] == THROW_FIRST || src[i] == THROW_AFTER1;
+                if constexpr (G::arg_is_void)
+                    list.push_back(source(c, (int)i, src[i]));
+                else
+                    list.push_back(source_arg(c, (int)i, src[i]));
             }
-            any_inf |= src[i] == INF;
-            any_throw |= src[i] == THROW_FIRST || src[i] == THROW_AFTER1;
-            if constexpr (G::arg_is_void)
-                list.push_back(source(c, (int)i, src[i]));
-            else
-                list.push_back(source_arg(c, (int)i, src[i]));
-        }
-        std::unique_ptr<G> agg(new G(cocls::generator_aggregator(std::move(list))));
+            return cocls::generator_aggregator(std::move(list));
+        };
+        std::unique_ptr<G> agg(new G(make_aggregate()));
         std::map<int, std::vector<int>> got;  // per source: values in arrival order
         std::vector<int> call_source;        // source of the value returned by call #i (-1 none)
         std::vector<int> args_passed;
